@@ -12,6 +12,7 @@ import json
 import logging
 import sys
 import threading
+import types
 from concurrent.futures import ThreadPoolExecutor
 
 from insights.core import dr, plugins
@@ -50,8 +51,13 @@ class Program(object):
         self.specsets = []
         self.variant = int(case.get("variant", 0))
         self.lock = threading.Lock()
+        self.module = types.ModuleType("verif_generated_%d" % (id(self) % 100000))
+        sys.modules[self.module.__name__] = self.module
+        self.has_point = any(p["kind"] == "point" for p in case["prog"])
+        self.to_disable = []
         for i, p in enumerate(case["prog"]):
             self._define(i + 1, p)
+        self._apply_enabled()
 
     # -- projection -------------------------------------------------------
     def cid(self, obj):
@@ -154,7 +160,8 @@ class Program(object):
         body = {"datasource": ds_body, "parser": parser_body}.get(kind, positional)
         body.__name__ = "c%d" % c
         body.__qualname__ = "c%d_%d" % (c, id(self) % 100000)
-        body.__module__ = "verif_generated"
+        body.__module__ = self.module.__name__
+        setattr(self.module, body.__qualname__, body)
         pos, opt = [], []
         for it in p["decl"]:
             if it["t"] == "req":
@@ -185,9 +192,30 @@ class Program(object):
         self.comp[c] = obj
         self.idx[id(obj)] = c
         if not p["enabled"]:
-            dr.set_enabled(obj, False)
+            self.to_disable.append(obj)
         for i in p["ignore"]:
             dr.add_ignore(obj, self.comp[i])
+
+    def _apply_enabled(self):
+        """The enabled switch is driven through every public way of setting it."""
+        import insights
+        how = 0 if self.has_point else self.variant % 4
+        if how == 0:
+            for o in self.to_disable:
+                dr.set_enabled(o, False)
+        elif how == 1:
+            for o in self.to_disable:
+                dr.set_enabled(dr.get_name(o), False)          # by fully qualified name
+        elif how == 2:
+            insights.apply_configs({"configs": [{"name": dr.get_name(o), "enabled": False} for o in self.to_disable]})
+        else:
+            # everything disabled by default, the enabled ones switched on by name
+            if self.to_disable:
+                insights.apply_default_enabled({"default_component_enabled": False})
+                self.replaced_enabled = True
+                on = [o for o in self.comp.values() if not any(o is d for d in self.to_disable)]
+                insights.apply_configs({"default_component_enabled": False,
+                                        "configs": [{"name": dr.get_name(o), "enabled": True} for o in on]})
 
     def registered(self, npad, keys=None):
         """The program as DECLARED by the driver (what was written in the decorators; for registry
@@ -235,6 +263,11 @@ class Program(object):
             for t in list(dr.COMPONENTS_BY_TYPE):
                 dr.COMPONENTS_BY_TYPE[t].discard(o)
         dr.COMPONENTS_BY_NAME.clear()
+        dr.COMPONENT_IMPORT_CACHE.clear()
+        sys.modules.pop(self.module.__name__, None)
+        if getattr(self, "replaced_enabled", False):
+            from collections import defaultdict
+            dr.ENABLED = defaultdict(lambda: True)
 
 
 class Recorder(object):
@@ -453,7 +486,7 @@ def run_case(case, driver, npad, listlen, obsfail, idtag=""):
         mode = "single" if driver in ("forced", "run", "closure") else ("pool" if pooled else "incr")
         return {"id": "%s/%s%s%s" % (case["id"], driver, idtag, "/obsfail" if obsfail else ""),
                 "final": None if escaped else rec.final(),
-                "prog": prog.registered(npad, observed if driver == "closure" else None), "closure": driver == "closure",
+                "prog": prog.registered(npad, observed if driver == "closure" else None), "closure": driver == "closure", "strict": True,
                 "ss": bool(case["ss"]), "mode": mode,
                 "workers": max(workers, len(rec.threads), 1), "events": rec.events}
     finally:
